@@ -163,6 +163,10 @@ func assemble(in *chain.Inst, prog string, pre *world.PreExecResult) (*pb.Transa
 type mutant struct {
 	name string
 	tx   *pb.Transaction
+	// free: the statement does not demand a refusal (a read that is no longer
+	// declared: the declared writes may still be what re-executing over the
+	// remaining declared reads produces); verdicts are counted, never alarmed
+	free bool
 }
 
 // mutants returns the single mutations whose rejection the statement demands.
@@ -174,7 +178,7 @@ func mutants(in *chain.Inst, base *pb.Transaction, pre *world.PreExecResult) []m
 			return
 		}
 		world.SignTx(t, "B", nil)
-		out = append(out, mutant{name, t})
+		out = append(out, mutant{name: name, tx: t, free: strings.HasSuffix(name, ".dropped") && strings.HasPrefix(name, "rset[") || strings.HasPrefix(name, "rset[") && strings.Contains(name, ".replaced_by_copy_of[")})
 	}
 	kvA := uni.Tx("kvA")
 	other := uni.Tx("tSplit")
@@ -236,6 +240,68 @@ func mutants(in *chain.Inst, base *pb.Transaction, pre *world.PreExecResult) []m
 			} else {
 				t.TxOutputsExt[i].Value = []byte{0}
 			}
+			return true
+		})
+	}
+	// structural edits of the declared write set made only of genuine entries: an
+	// entry replaced by a second copy of another one (same length, every entry
+	// occurs in the re-executed set), an entry listed twice
+	for i := range base.TxOutputsExt {
+		i := i
+		for j := range base.TxOutputsExt {
+			j := j
+			if i == j {
+				continue
+			}
+			add(fmt.Sprintf("wset[%d].replaced_by_copy_of[%d]", i, j), func(t *pb.Transaction) bool {
+				a, b := t.TxOutputsExt[i], t.TxOutputsExt[j]
+				if a.Bucket == b.Bucket && bytes.Equal(a.Key, b.Key) && bytes.Equal(a.Value, b.Value) {
+					return false
+				}
+				t.TxOutputsExt[i] = proto.Clone(b).(*protos.TxOutputExt)
+				return true
+			})
+		}
+		add(fmt.Sprintf("wset[%d].listed_twice", i), func(t *pb.Transaction) bool {
+			t.TxOutputsExt = append(t.TxOutputsExt, proto.Clone(t.TxOutputsExt[i]).(*protos.TxOutputExt))
+			return true
+		})
+	}
+	// the same for the declared reads: a read the execution made is no longer
+	// declared (dropped, or overwritten by a copy of another declared read)
+	for i := range base.TxInputsExt {
+		i := i
+		add(fmt.Sprintf("rset[%d].dropped", i), func(t *pb.Transaction) bool {
+			t.TxInputsExt = append(t.TxInputsExt[:i:i], t.TxInputsExt[i+1:]...)
+			return true
+		})
+		for j := range base.TxInputsExt {
+			j := j
+			if i == j {
+				continue
+			}
+			add(fmt.Sprintf("rset[%d].replaced_by_copy_of[%d]", i, j), func(t *pb.Transaction) bool {
+				a, b := t.TxInputsExt[i], t.TxInputsExt[j]
+				if a.Bucket == b.Bucket && bytes.Equal(a.Key, b.Key) {
+					return false
+				}
+				t.TxInputsExt[i] = proto.Clone(b).(*protos.TxInputExt)
+				return true
+			})
+		}
+	}
+	// requests listed twice / dropped: the re-execution then has other effects
+	for i := range base.ContractRequests {
+		i := i
+		add(fmt.Sprintf("request[%d].listed_twice", i), func(t *pb.Transaction) bool {
+			t.ContractRequests = append(t.ContractRequests, proto.Clone(t.ContractRequests[i]).(*protos.InvokeRequest))
+			return true
+		})
+		add(fmt.Sprintf("request[%d].dropped", i), func(t *pb.Transaction) bool {
+			if len(t.TxOutputsExt) == 0 {
+				return false // nothing declared that the missing request would have to produce
+			}
+			t.ContractRequests = append(t.ContractRequests[:i:i], t.ContractRequests[i+1:]...)
 			return true
 		})
 	}
@@ -340,6 +406,7 @@ func mutants(in *chain.Inst, base *pb.Transaction, pre *world.PreExecResult) []m
 
 type stats struct {
 	programs, preexecFailed, accepted, mutants, committed int
+	freeAccepted, freeRefused                            int
 }
 
 // runBase runs one base case with all its mutants.
@@ -387,10 +454,18 @@ func runBase(c Case, only string) (viol []core.Violation, st stats) {
 		}
 		st.mutants++
 		ok, verr := w.State.VerifyTx(world.CloneTx(m.tx))
+		if m.free {
+			if ok && verr == nil {
+				st.freeAccepted++
+			} else {
+				st.freeRefused++
+			}
+			continue
+		}
 		if ok && verr == nil {
 			kind := m.name
-			if j := strings.IndexByte(kind, '['); j >= 0 {
-				kind = kind[:j] + kind[strings.IndexByte(kind, ']')+1:]
+			for j := strings.IndexByte(kind, '['); j >= 0; j = strings.IndexByte(kind, '[') {
+				kind = kind[:j] + kind[j+strings.IndexByte(kind[j:], ']')+1:]
 			}
 			bad("c09.mutant_accepted."+kind, m.name, "VerifyTx accepts the transaction after the mutation")
 			continue
@@ -565,6 +640,8 @@ func run(tier core.Tier) *core.Report {
 				tot.preexecFailed += st.preexecFailed
 				tot.accepted += st.accepted
 				tot.mutants += st.mutants
+				tot.freeAccepted += st.freeAccepted
+				tot.freeRefused += st.freeRefused
 				tot.committed += st.committed
 				if tot.programs%997 == 1 {
 					rep.Sample(map[string]interface{}{"case": c, "mutants": st.mutants, "accepted": st.accepted == 1})
@@ -589,7 +666,8 @@ func run(tier core.Tier) *core.Report {
 	rep.Set("programs_failing_at_preexec", tot.preexecFailed)
 	rep.Set("base_transactions_accepted", tot.accepted)
 	rep.Set("base_transactions_committed", tot.committed)
-	rep.Set("mutants_judged", tot.mutants)
+	rep.Set("mutants_judged", tot.mutants-tot.freeAccepted-tot.freeRefused)
+	rep.Set("outside_statement_mutants", fmt.Sprintf("declared read dropped / overwritten by a copy of another declared read: %d accepted, %d refused (recorded, not judged: the declared writes may still be what re-execution over the remaining reads produces)", tot.freeAccepted, tot.freeRefused))
 	rep.Set("bound", fmt.Sprintf("programs of length <= %d over %d statements (get/put/del/select/transfer/nested call/fail) x %d prior states; every single mutation of read set versions, write set, transient entries, request args and limits, fee, transfer outputs", n, len(alphabet), len(priors)))
 	rep.Set("exhaustive", !stopped)
 	rep.Assume("the harness contract's transfer spends from the initiator, as the bridge syscall does; mutants are re-signed by the initiator (the question is whether the chain binds declared effects, not whether signatures bind content: C07)")
